@@ -45,9 +45,9 @@ pub fn opt_eol() -> Vec<u8> { vec![0] }
 pub fn opt_ts(val: u32, ecr: u32) -> Vec<u8> { let mut v = vec![8, 10]; v.extend_from_slice(&val.to_be_bytes()); v.extend_from_slice(&ecr.to_be_bytes()); v }
 
 #[derive(Clone, Debug)]
-pub struct Ip4 { pub src: [u8; 4], pub dst: [u8; 4], pub ttl: u8, pub id: u16, pub df: bool, pub mbz: bool, pub tos: u8, pub proto: u8, pub options: Vec<u8> }
+pub struct Ip4 { pub src: [u8; 4], pub dst: [u8; 4], pub ttl: u8, pub id: u16, pub df: bool, pub mbz: bool, pub mf: bool, pub frag_off: u16, pub tos: u8, pub proto: u8, pub options: Vec<u8> }
 impl Ip4 {
-    pub fn new(src: [u8; 4], dst: [u8; 4]) -> Self { Ip4 { src, dst, ttl: 64, id: 0x1234, df: true, mbz: false, tos: 0, proto: 6, options: vec![] } }
+    pub fn new(src: [u8; 4], dst: [u8; 4]) -> Self { Ip4 { src, dst, ttl: 64, id: 0x1234, df: true, mbz: false, mf: false, frag_off: 0, tos: 0, proto: 6, options: vec![] } }
     pub fn bytes(&self, payload: &[u8]) -> Vec<u8> {
         let mut opts = self.options.clone();
         while opts.len() % 4 != 0 { opts.push(0); }
@@ -56,7 +56,7 @@ impl Ip4 {
         let mut b = vec![0x40 | ihl, self.tos];
         b.extend_from_slice(&(total as u16).to_be_bytes());
         b.extend_from_slice(&self.id.to_be_bytes());
-        let fl: u16 = ((self.mbz as u16) << 15) | ((self.df as u16) << 14);
+        let fl: u16 = ((self.mbz as u16) << 15) | ((self.df as u16) << 14) | ((self.mf as u16) << 13) | (self.frag_off & 0x1fff);
         b.extend_from_slice(&fl.to_be_bytes());
         b.push(self.ttl); b.push(self.proto); b.extend_from_slice(&[0, 0]);
         b.extend_from_slice(&self.src); b.extend_from_slice(&self.dst);
